@@ -340,7 +340,8 @@ func init() {
 		},
 		"(*golang.org/x/text/encoding.Encoder).String": intrUTF16BE,
 		"golang.org/x/text/encoding/unicode.UTF16": func(ex *Exec, fn *ssa.Function, args []Value) Value {
-			return IfaceV{}
+			t := ex.eng.namedType("golang.org/x/text/encoding/unicode", "utf16Encoding")
+			return IfaceV{T: t, V: ex.zero(t)}
 		},
 		"runtime.GC":                    zeroResult,
 		"runtime.Gosched":               zeroResult,
